@@ -50,6 +50,14 @@ func endEmitters(p *Prog) (emitters []*ssa.Function, isEmitter map[*ssa.Function
 }
 
 func runC03(c *Ctx) {
+	// clause shared with C16: a flush asked for by the handler never commits a response head that is still being held back
+	defer c.ImportRules("C16", "C16.5")
+	defer func() {
+		c.Rule("C03.20", "a response message for a peer without envelopes is compressed whenever a compression is declared", 1)
+		checkUnenvelopedCompression(c, "C03.20", false)
+	}()
+	// clause shared with C04: grpc-message is percent-encoded to the spec's character set
+	defer c.ImportRules("C04", "C04.5")
 	p := c.P
 	// clauses shared with C01 (a response declared compressed is a stream of that compression)
 	defer c.ImportRules("C01", "C01.4", "C01.6")
@@ -320,6 +328,7 @@ func runC03(c *Ctx) {
 	c.Rule("C03.6", "a re-encoded response frame's compressed flag = message was compressed AND client compression present", 1)
 	checkEnvelopeSites(c, "C03.3", "C03.5", "C03.6", false)
 	checkSynthFlagNonEmpty(c, "C03.6", false)
+	checkLengthMeasuredAfterLastEdit(c, "C03.6", false)
 
 	// ---------------------------------------------------------------- C03.4
 	c.Rule("C03.4", "Content-Length equals the buffer written, only without error; backend Content-Length consumed first", 4)
